@@ -19,16 +19,28 @@ pub trait Codec {
         ensures Self::dec_count(data) matches Some((n, _)) ==> 0 < n <= data.len();
     fn read_count(data: &[u8]) -> (r: Option<(usize, usize)>)
         ensures r == Self::dec_count(data@);
+    /// the bytes `encode_count(n)` produces: between 1 and 10, and `read_count` reads them back (ASSUMED; for Leb128
+    /// backed by K u06_leb_unsigned_roundtrip)
+    spec fn enc(n: usize) -> Seq<u8>;
+    proof fn enc_bounds(n: usize, rest: Seq<u8>)
+        ensures 1 <= Self::enc(n).len() <= 10, Self::dec_count(Self::enc(n) + rest) == Some((Self::enc(n).len() as usize, n));
 }
 pub struct Leb128;
 impl Codec for Leb128 {
     uninterp spec fn dec_count(data: Seq<u8>) -> Option<(usize, usize)>;
+    uninterp spec fn enc(n: usize) -> Seq<u8>;
+    #[verifier::external_body] proof fn enc_bounds(n: usize, rest: Seq<u8>) {}
     #[verifier::external_body] proof fn dec_bounds(data: Seq<u8>) {}
     #[verifier::external_body] fn read_count(data: &[u8]) -> (r: Option<(usize, usize)>) { unimplemented!() }
 }
 #[derive(Clone, Copy)]
 pub struct Run<V> { pub count: usize, pub value: V }
 pub enum PackError { BadFormat, Other }
+/// `data.extend(C::encode_count(n))` (VarBuf is an iterator of its bytes)
+#[verifier::external_body]
+pub fn vf_extend_count<C: Codec>(data: &mut Vec<u8>, n: usize)
+    ensures final(data)@ == old(data)@ + C::enc(n),
+{ unimplemented!() }
 /// `data[a..b].to_vec()`: panics unless a <= b <= len
 #[verifier::external_body]
 pub fn vf_range_to_vec(data: &[u8], a: usize, b: usize) -> (r: Vec<u8>)
@@ -94,6 +106,45 @@ impl<'a, C: Codec> BoolLoadIter<'a, C> {
             decreases self.data.len() - self.pos,
 //@   before /let \(cb, count\) = /
             proof { C::dec_bounds(self.data@.subrange(self.pos as int, self.data.len() as int)); }
+//@ end
+}
+
+/// number of run headers in a bool slab's bytes (what the loader counts as `segments`)
+pub open spec fn headers<C: Codec>(data: Seq<u8>) -> nat decreases data.len() {
+    if data.len() == 0 { 0 } else {
+        match C::dec_count(data) {
+            Some((cb, _)) => if 0 < cb <= data.len() { 1 + headers::<C>(data.subrange(cb as int, data.len() as int)) } else { 0 },
+            None => 0,
+        }
+    }
+}
+pub struct ForBoolEncoding<C>(PhantomData<C>);
+impl<C: Codec> ForBoolEncoding<C> {
+//@ fn rust/hexane/src/bool.rs | impl<C: Codec> ColumnEncoding for BoolEncoding<C> | fill
+//@   ret r
+//@   subst /data\.extend\(C::encode_count\(0\)\)/ => vf_extend_count::<C>(&mut data, 0)
+//@   subst /data\.extend\(C::encode_count\(len\)\)/ => vf_extend_count::<C>(&mut data, len)
+//@   spec
+        // a fill slab is what the loader would have produced for the same bytes: `len` items, starting on a false run
+        // (a zero-count pad in front of a true run), ONE SEGMENT PER RUN HEADER, and the tail is the last header's width
+        ensures r.len == len,
+            r.data@ == (if value { C::enc(0) } else { Seq::<u8>::empty() }) + C::enc(len),
+            r.segments == headers::<C>(r.data@),
+            r.tail == C::enc(len).len(),
+//@   before /^\s*Slab \{/
+        proof {
+            C::enc_bounds(len, Seq::<u8>::empty());
+            assert(C::enc(len) + Seq::<u8>::empty() =~= C::enc(len));
+            assert(C::enc(len).subrange(C::enc(len).len() as int, C::enc(len).len() as int) =~= Seq::<u8>::empty());
+            reveal_with_fuel(headers, 3);
+            if value {
+                C::enc_bounds(0, C::enc(len));
+                assert((C::enc(0) + C::enc(len)).subrange(C::enc(0).len() as int, (C::enc(0) + C::enc(len)).len() as int) =~= C::enc(len));
+                assert(data@ =~= C::enc(0) + C::enc(len));
+            } else {
+                assert(data@ =~= C::enc(len));
+            }
+        }
 //@ end
 }
 
